@@ -1371,6 +1371,18 @@ fn classify(sig: &str, _tx: &Tx, _pred: &Pred) -> String {
 }
 
 pub fn main() {
+    if std::env::args().any(|a| a == "--worker") {
+        // a worker process runs transactions in-process: a runaway transaction must not eat the machine's memory before
+        // the runner's deadline kills the worker, and the worker must not outlive the runner
+        unsafe {
+            libc::prctl(libc::PR_SET_PDEATHSIG, libc::SIGKILL as libc::c_ulong);
+            let mem = libc::rlimit {
+                rlim_cur: 2 << 30,
+                rlim_max: 2 << 30,
+            };
+            libc::setrlimit(libc::RLIMIT_AS, &mem);
+        }
+    }
     let mut ck = Check::new("C16", "exploration");
     ck.rule("Histories of 1..25 steps over 9 names (HEAD, nested refs/heads/a vs a/b, tags, remotes incl. a symbolic o/HEAD, a pseudo ref); 75% gitoxide transactions (1..4 edits: update to object|symbolic / delete, every PreviousValue variant with matching values preferred, deref, log-only, force-create-reflog, all three PackedRefs modes), 25% external `git update-ref|symbolic-ref|pack-refs --all [--prune]`. Non-trivial: a transaction whose edit carries an expectation on a ref that earlier moved loose<->packed, or a deref edit that was split through a symbolic ref. Distinct by hash of the decoded history.");
     ck.assume(&format!("{} reads the resulting repository (for-each-ref, symbolic-ref, rev-parse --verify)", Git::version()));
